@@ -143,6 +143,11 @@ CORPUS = [
     # mixed thread + async + a third ready node (F9 shape)
     dict(kind="sched", n=3, edges=[], attrs=[dict(priority=3, is_sequential=False, resource="thread"), dict(priority=2, is_sequential=False, resource="async-thread"),
                                            dict(priority=1, is_sequential=False, resource="thread")], flags={}, rets=[1, 1, 1], fails=[], maxc=2, is_async=False, mode="call"),
+    # a sequential node chosen while two nodes run; the first completion releases a node of greater compound priority,
+    # which is then the best candidate (and is not sequential): it must start at once, the sequential node waits on
+    dict(kind="sched", n=4, edges=[[0, 3]], attrs=[dict(priority=5, is_sequential=False, resource="thread"), dict(priority=4, is_sequential=False, resource="thread"),
+                                                  dict(priority=3, is_sequential=True, resource="thread"), dict(priority=10, is_sequential=False, resource="thread")],
+         flags={}, rets=[1] * 4, fails=[], maxc=3, is_async=False, mode="call"),
     # fan-in behind a sequential node
     dict(kind="sched", n=5, edges=[[0, 3], [1, 3], [2, 3], [3, 4]], attrs=[dict(priority=0, is_sequential=False, resource="thread")] * 3 + [dict(priority=5, is_sequential=True, resource="thread"), dict(priority=0, is_sequential=False, resource="main-thread")],
          flags={}, rets=[1] * 5, fails=[], maxc=3, is_async=False, mode="call"),
